@@ -400,8 +400,15 @@ func (c *Channels) ReceiveDataError(chid datatransfer.ChannelID, err error) erro
 
 // SetDataLimit means a data limit has been set on this channel
 func (c *Channels) SetDataLimit(chid datatransfer.ChannelID, dataLimit uint64) error {
+	// Queue the event before touching the cache. A block report that is loading
+	// the channel's limit into the (still empty) cache at this moment either
+	// reads the state after this event - GetSync processes everything queued
+	// before it - or has its cache entry in place by the time the cache update
+	// below gets the lock. The other way round, a load that fell between the
+	// two steps cached the old limit for good.
+	err := c.send(chid, datatransfer.SetDataLimit, dataLimit)
 	c.progressCache.setDataLimit(chid, dataLimit)
-	return c.send(chid, datatransfer.SetDataLimit, dataLimit)
+	return err
 }
 
 // SetRequiresFinalization sets the state of whether a data transfer can complete
